@@ -151,6 +151,7 @@ class Exec:
         self.exit_eq = exit_eq or {}      # header block -> (phi inst id, Lf): value of that induction variable when the loop is left through its header test
         self.callee_writes = callee_writes or {}   # callee -> {arg index: (offset, nbytes)} it may write (else: whole object)
         self.congr = dict(congr or {})  # ("hd", phi id) -> (Lf E, g): the loop-carried integer stays congruent to E modulo g (it starts at E and moves in steps of g)
+        self.symbits = {}             # integer-cell symbol -> width in bits of the cell it stands for
         self.hdp_origin = {}          # ("hdp", phi id) -> object the loop-carried pointer walks through (from its value on entry)
         self.head_consts = dict(head_consts or {})  # phi id -> concrete value the generic iteration starts with (a loop-carried helper index with a finite orbit)
         # guarded bottom-tested loops ("if (n >= 4) do { ... } while (n >= 4);") summarised as the top-tested loop they are equivalent to:
@@ -333,7 +334,15 @@ class Exec:
         syms = [s_ for s_ in v if s_ != 1]
         if len(syms) == 1 and v[syms[0]] == 1 and isinstance(syms[0], tuple) and syms[0][0] in ("fld", "n", "hvi"):
             # an integer cell / parameter used as data: a canonical symbolic word (plus its constant part)
-            base = gf2.sym_word(("lfw", repr(syms[0])), w)
+            bits_ = self.symbits.get(syms[0])
+            if bits_ is None and syms[0][0] == "n":
+                ty_ = self.f.params[syms[0][1]]["ty"] if syms[0][1] < len(self.f.params) else ""
+                bits_ = int(ty_[1:]) if ty_.startswith("i") and ty_[1:].isdigit() else None
+            if bits_ and bits_ < w:
+                # a narrower cell / parameter widened: its upper bits are zero, not free
+                base = gf2.sym_word(("lfw", repr(syms[0])), bits_) + [gf2.ZERO] * (w - bits_)
+            else:
+                base = gf2.sym_word(("lfw", repr(syms[0])), w)
             k0 = v.get(1, 0)
             return base if not k0 else gf2.wadd(base, gf2.const_word(k0 & ((1 << w) - 1), w))[0]
         if len(syms) == 1 and v[syms[0]] == 1 and not v.get(1, 0) and isinstance(syms[0], tuple) and syms[0][0] in ("quo", "rem") and p is not None:
@@ -398,6 +407,7 @@ class Exec:
             lfc = p.lfmem.get((obj, o, nbytes))
             if lfc is None:
                 lfc = Lf.s(("fld", obj, o, p.objgen.get(obj, 0)))
+                self.symbits[("fld", obj, o, p.objgen.get(obj, 0))] = 8 * nbytes
                 p.lfmem[(obj, o, nbytes)] = lfc
             c_ = self.subst(p, lfc).const()
             if c_ is not None:
@@ -1135,6 +1145,7 @@ class Exec:
                     if self.int_cells and self.int_cells(ob, of.const(), n):
                         if lfc is None:
                             lfc = Lf.s(("fld", ob, of.const(), p.objgen.get(ob, 0)))
+                            self.symbits[("fld", ob, of.const(), p.objgen.get(ob, 0))] = 8 * n
                             p.lfmem[(ob, of.const(), n)] = lfc
                         p.env[k] = lfc
                         return
